@@ -3,6 +3,7 @@ import Spydr.Verilog.Props.C06
 import Spydr.Verilog.RoundTripShape
 import Spydr.Verilog.RoundTripSingle
 import Spydr.Verilog.RoundTripBits
+import Spydr.Verilog.RoundTripView
 
 #print axioms Spydr.Verilog.getWires_spec
 #print axioms Spydr.Verilog.getWires_spec_single_all
@@ -49,3 +50,12 @@ import Spydr.Verilog.RoundTripBits
 #print axioms Spydr.Verilog.Elab.buildW3_WF
 #print axioms Spydr.Verilog.Elab.instStep2_den
 #print axioms Spydr.Verilog.Elab.row_roundtrip
+#print axioms Spydr.Verilog.Elab.buildW3_cab
+#print axioms Spydr.Verilog.Elab.buildW3_ports
+#print axioms Spydr.Verilog.Elab.buildW3_PC
+#print axioms Spydr.Verilog.Elab.cables_view
+#print axioms Spydr.Verilog.Elab.ports_view
+#print axioms Spydr.Verilog.Elab.inst_view_step
+#print axioms Spydr.Verilog.Elab.c04_view
+#print axioms Spydr.Verilog.Elab.c04_ast
+#print axioms Spydr.Verilog.Elab.exNet_frag
